@@ -566,6 +566,13 @@ def gen (seed n : Nat) (tier : String) (emit : String → IO Unit) : IO Unit := 
             let (bad, r7) := r6.nat 253
             r := r7
             emit s!"xs 0 {dictStr d} {hexOfBytes (rows.set (rowi * (w0 + w1 + w2) + w0 - 1) (UInt8.ofNat (3 + bad)))} 0"
+            -- a wide type field whose HIGH bytes are non-zero while the low byte stays legal
+            -- (0x0101, 0xff00, ...): above 2 all the same (seed C13_3 truncated the field to u8)
+            if w0 ≥ 2 then
+              let (hb, r8) := r.nat (w0 - 1)
+              let (hv, r9) := r8.pick ([1, 2, 0xff, 0x80] : List UInt8)
+              r := r9
+              emit s!"xs 0 {dictStr d} {hexOfBytes (rows.set (rowi * (w0 + w1 + w2) + hb) hv)} 0"
           -- filters
           if !rows.isEmpty then
             let (m, r8) := r.pick ["00", "06", "10", "16", "u0", "u6"]
